@@ -46,6 +46,7 @@ fn main() {
         "syncfail" => syncfail(),
         "syncfail-child" => syncfail_child(&args[2], args[3].parse().unwrap()),
         "stats" => stats(),
+        "tablesizes" => tablesizes(),
         _ => { eprintln!("unknown scenario"); 2 }
     };
     std::process::exit(code);
@@ -778,6 +779,53 @@ fn stats() -> i32 {
     match res { Ok(Ok(())) => { println!("OK"); 0 } Ok(Err(e)) => { println!("MISMATCH: {e}"); 1 } Err(_) => { println!("MISMATCH: panicked"); 1 } }
 }
 
+/// the same call history on tables of many sizes (given directly and as a capacity) and buffer settings: every observation (results of
+/// put / delete / get / includes_key, len, the set of entries each iterator flavour yields) must be the same for every setting
+fn tablesizes() -> i32 {
+    use std::collections::BTreeMap;
+    let dir = tmpdir("tablesizes");
+    let res = std::panic::catch_unwind(std::panic::AssertUnwindSafe(|| -> Result<(), String> {
+        let mut settings: Vec<(String, FileDbParams)> = Vec::new();
+        for nb in [1u64, 8, 16, 24, 32, 64, 128, 1024, 4096] { settings.push((format!("BucketsSize({nb})"), FileDbParams { buckets_size: HashBucketsParam::BucketsSize(nb), ..Default::default() })); }
+        for cap in [1u64, 9, 20, 100, 3000] { settings.push((format!("Capacity({cap})"), FileDbParams { buckets_size: HashBucketsParam::Capacity(cap), ..Default::default() })); }
+        settings.push(("BucketsSize(64), 1000-byte buffers".into(), FileDbParams { buckets_size: HashBucketsParam::BucketsSize(64), key_buf_size: FileBufSizeParam::Size(1000), val_buf_size: FileBufSizeParam::Size(1000), htx_buf_size: FileBufSizeParam::Size(1000), ..Default::default() }));
+        for seed in [3u64, 17, 40] {
+            let mut reference: Option<(String, Vec<String>)> = None;
+            for (name, params) in &settings {
+                let _ = std::fs::remove_dir_all(&dir);
+                let db = abyssiniandb::open_file(&dir).unwrap();
+                let mut m = db.db_map_u64_with_params("m", params.clone()).unwrap();
+                let mut rng = Rng(seed.wrapping_mul(0x9E3779B97F4A7C15) | 1);
+                let mut model: BTreeMap<u64, Vec<u8>> = BTreeMap::new();
+                let mut log: Vec<String> = Vec::new();
+                let nkeys = 12 + seed;     // few keys: buckets become empty again and again
+                for step in 0..400u64 {
+                    let k = rng.below(nkeys) * 0x0101_0101_0101 + 5; let op = rng.below(10);
+                    if op < 5 { let v = vec![step as u8; 1 + rng.below(40) as usize]; m.put(&k, &v).unwrap(); model.insert(k, v); log.push(format!("put {k}")); }
+                    else if op < 9 { let r = m.delete(&k).unwrap(); if r != model.remove(&k) { return Err(format!("{name}, seed {seed}, step {step}: delete({k}) differs from the model")); } log.push(format!("delete {k} -> {r:?}")); }
+                    else { let r = m.get(&k).unwrap(); if r.as_ref() != model.get(&k) { return Err(format!("{name}, seed {seed}, step {step}: get({k}) differs from the model")); } log.push(format!("get {k} -> {r:?}")); }
+                    let l = m.len().unwrap(); if l != model.len() as u64 { return Err(format!("{name}, seed {seed}, step {step}: len {l}, model {}", model.len())); }
+                    let want: Vec<(u64, Vec<u8>)> = model.iter().map(|(k, v)| (*k, v.clone())).collect();
+                    let mut a: Vec<(u64, Vec<u8>)> = m.iter().map(|(k, v)| (k.into(), v)).collect(); a.sort();
+                    if a != want { return Err(format!("{name}, seed {seed}, step {step} ({}): iter() yields {} entries {:?}, the map holds {:?}", log.last().unwrap(), a.len(), a.iter().map(|x| x.0).collect::<Vec<_>>(), want.iter().map(|x| x.0).collect::<Vec<_>>())); }
+                    if step % 7 == 0 {
+                        let mut ks: Vec<u64> = m.keys().map(|k| k.into()).collect(); ks.sort();
+                        if ks != want.iter().map(|x| x.0).collect::<Vec<_>>() { return Err(format!("{name}, seed {seed}, step {step}: keys() differs from the map")); }
+                        let mut vs: Vec<Vec<u8>> = m.values().collect(); vs.sort(); let mut wv: Vec<Vec<u8>> = want.iter().map(|x| x.1.clone()).collect(); wv.sort();
+                        if vs != wv { return Err(format!("{name}, seed {seed}, step {step}: values() differs from the map")); }
+                        for (k, _) in &want { if !m.includes_key(k).unwrap() { return Err(format!("{name}, seed {seed}, step {step}: includes_key({k}) is false")); } }
+                    }
+                    log.push(format!("len {l}"));
+                }
+                match &reference { None => reference = Some((name.clone(), log)), Some((n0, l0)) => if *l0 != log { return Err(format!("seed {seed}: the history observed with {name} differs from the one observed with {n0}")); } }
+            }
+        }
+        Ok(())
+    }));
+    let _ = std::fs::remove_dir_all(&dir);
+    match res { Ok(Ok(())) => { println!("OK"); 0 } Ok(Err(e)) => { println!("MISMATCH: {e}"); 1 } Err(_) => { println!("MISMATCH: panicked"); 1 } }
+}
+
 /// bulk calls against their element-wise counterparts on the real file-backed map: every permutation of 4 and 5 keys (one absent)
 fn bulk() -> i32 {
     fn perms(n: usize) -> Vec<Vec<usize>> {
@@ -827,6 +875,43 @@ fn bulk() -> i32 {
                 for (i, k) in keys.iter().enumerate() { let e = m2.delete(*k).unwrap(); if r[i] != e { return Err(format!("bulk_delete({keys:?})[{i}] differs from delete({k})")); } }
                 let a: std::collections::BTreeMap<Vec<u8>, Vec<u8>> = m.iter().map(|(k, v)| (k.as_bytes().to_vec(), v)).collect(); let b: std::collections::BTreeMap<Vec<u8>, Vec<u8>> = m2.iter().map(|(k, v)| (k.as_bytes().to_vec(), v)).collect();
                 if a != b || m.len().unwrap() != m2.len().unwrap() { return Err(format!("bulk_delete({keys:?}) leaves a different map than the individual deletes")); }
+            }
+        }
+        // large values on recycled storage: both maps get the same prehistory (slots of several sizes freed in several orders), then one
+        // takes a batch through bulk_put / bulk_delete (key order), the other the same pairs one by one (input order); the two maps must
+        // hold the same entries afterwards, although they allocate and free their slots in a different sequence
+        let sizes = [1400usize, 2500, 2000, 900, 40];
+        for pre in 0..4usize {
+            for p in perms(4) {
+                let _ = std::fs::remove_dir_all(&dir);
+                let db = abyssiniandb::open_file(&dir).unwrap();
+                let mut m = db.db_map_string_with_params("m", params.clone()).unwrap();
+                let mut m2 = db.db_map_string_with_params("m2", params.clone()).unwrap();
+                for mm in [&mut m, &mut m2] {
+                    let prel: &[(&str, usize)] = match pre { 0 => &[("x1", 3000), ("x2", 1500)], 1 => &[("x1", 1500), ("x2", 3000)], 2 => &[("x1", 3000), ("x2", 1100), ("x3", 2100)], _ => &[("x1", 1100), ("x2", 5000), ("x3", 1100), ("x4", 2600)] };
+                    for (k, l) in prel { mm.put(*k, &vec![0x55u8; *l]).unwrap(); }
+                    mm.put("keep", &vec![0x66u8; 1200]).unwrap();
+                    for (k, _) in prel { mm.delete(*k).unwrap(); }
+                }
+                let names = ["ka", "kb", "kc", "kd"];
+                let vals: Vec<Vec<u8>> = p.iter().enumerate().map(|(i, &j)| vec![0x30 + j as u8; sizes[(i + pre) % sizes.len()]]).collect();
+                let pairs: Vec<(&str, &[u8])> = p.iter().zip(vals.iter()).map(|(&j, v)| (names[j], &v[..])).collect();
+                m.bulk_put(&pairs).unwrap();
+                for (k, v) in &pairs { m2.put(*k, v).unwrap(); }
+                let a: std::collections::BTreeMap<Vec<u8>, Vec<u8>> = m.iter().map(|(k, v)| (k.as_bytes().to_vec(), v)).collect(); let b: std::collections::BTreeMap<Vec<u8>, Vec<u8>> = m2.iter().map(|(k, v)| (k.as_bytes().to_vec(), v)).collect();
+                if a != b { return Err(format!("prehistory {pre}: bulk_put of large values in order {p:?} leaves a different map than the individual puts")); }
+                for (k, v) in &pairs { if m.get(*k).unwrap().as_deref() != Some(*v) { return Err(format!("prehistory {pre}: after bulk_put in order {p:?}, get({k}) is not the value that was put")); } }
+                if m.get("keep").unwrap() != Some(vec![0x66u8; 1200]) { return Err(format!("prehistory {pre}: bulk_put in order {p:?} changed an entry that is not in the batch")); }
+                // second batch: overwrite with other sizes (values move), then delete three of the four in this order
+                let vals2: Vec<Vec<u8>> = p.iter().enumerate().map(|(i, &j)| vec![0x40 + j as u8; sizes[(i + pre + 2) % sizes.len()] + 700]).collect();
+                let pairs2: Vec<(&str, &[u8])> = p.iter().zip(vals2.iter()).map(|(&j, v)| (names[j], &v[..])).collect();
+                m.bulk_put(&pairs2).unwrap();
+                for (k, v) in &pairs2 { m2.put(*k, v).unwrap(); }
+                let dk: Vec<&str> = p.iter().take(3).map(|&j| names[j]).collect();
+                let r = m.bulk_delete(&dk).unwrap();
+                for (i, k) in dk.iter().enumerate() { let e = m2.delete(*k).unwrap(); if r[i] != e { return Err(format!("prehistory {pre}: bulk_delete({dk:?})[{i}] differs from delete({k})")); } }
+                let a: std::collections::BTreeMap<Vec<u8>, Vec<u8>> = m.iter().map(|(k, v)| (k.as_bytes().to_vec(), v)).collect(); let b: std::collections::BTreeMap<Vec<u8>, Vec<u8>> = m2.iter().map(|(k, v)| (k.as_bytes().to_vec(), v)).collect();
+                if a != b || m.len().unwrap() != m2.len().unwrap() || m.len().unwrap() != 2 { return Err(format!("prehistory {pre}: second batch in order {p:?} leaves a different map than the individual calls")); }
             }
         }
         Ok(())
@@ -911,6 +996,30 @@ fn keys() -> i32 {
     let dir = tmpdir("keys");
     let res = std::panic::catch_unwind(std::panic::AssertUnwindSafe(|| -> Result<(), String> {
         let params = FileDbParams { buckets_size: HashBucketsParam::BucketsSize(8), ..Default::default() };
+        // key files of several buffer chunks (128 KiB each) with slots of mixed sizes, so that keys lie across chunk boundaries: the keys
+        // that iteration returns are the keys that were put (strings of 10..46 bytes; vu64 keys of 1..9 encoded bytes)
+        {
+            let big = FileDbParams { buckets_size: HashBucketsParam::BucketsSize(1024), ..Default::default() };
+            let db = abyssiniandb::open_file(&dir).unwrap();
+            let mut ms = db.db_map_string_with_params("big-s", big.clone()).unwrap();
+            let mut want: std::collections::BTreeSet<Vec<u8>> = Default::default();
+            for i in 0..9000usize { let k = format!("key-{i:05}-{}", "x".repeat(i * 7 % 37)); ms.put(&k, &[1]).unwrap(); want.insert(k.into_bytes()); }
+            let got: std::collections::BTreeSet<Vec<u8>> = ms.iter().map(|(k, _)| k.as_bytes().to_vec()).collect();
+            if got != want { let bad: Vec<String> = got.difference(&want).take(2).map(|k| String::from_utf8_lossy(k).into_owned()).collect(); return Err(format!("string map with a {}-byte key file: iteration returned keys that were never put, e.g. {bad:?}", std::fs::metadata(dir.join("big-s.key")).map(|m| m.len()).unwrap_or(0))); }
+            let got: std::collections::BTreeSet<Vec<u8>> = ms.keys().map(|k| k.as_bytes().to_vec()).collect();
+            if got != want { return Err("string map with a large key file: keys() differs from what was put".into()); }
+            let mut mv = db.db_map_vu64_with_params("big-v", big.clone()).unwrap();
+            let mut wantv: std::collections::BTreeSet<u64> = Default::default();
+            for i in 0..20000u64 { let k = match i % 5 { 0 => i, 1 => i << 20, 2 => (1u64 << 56) + i * 977, 3 => u64::MAX - i, _ => i << 40 }; mv.put(&k, &[2]).unwrap(); wantv.insert(k); }
+            let gotv: std::collections::BTreeSet<u64> = mv.iter().map(|(k, _)| k.into()).collect();
+            if gotv != wantv { let bad: Vec<u64> = gotv.difference(&wantv).take(2).cloned().collect(); return Err(format!("vu64 map with a large key file: iteration returned keys that were never put, e.g. {bad:?}")); }
+            let mut mb = db.db_map_bytes_with_params("big-b", big.clone()).unwrap();
+            let mut wantb: std::collections::BTreeSet<Vec<u8>> = Default::default();
+            for i in 0..6000usize { let mut k = vec![0xffu8; 3 + i * 11 % 60]; k[0] = (i >> 8) as u8; k[1] = i as u8; mb.put(&k[..], &[3]).unwrap(); wantb.insert(k); }
+            let gotb: std::collections::BTreeSet<Vec<u8>> = mb.iter().map(|(k, _)| k.as_bytes().to_vec()).collect();
+            if gotb != wantb { return Err("bytes map with a large key file: iteration returned keys that were never put".into()); }
+        }
+        let _ = std::fs::remove_dir_all(&dir);
         let alpha = [0x00u8, 0x61, 0x62, 0x80, 0xc3, 0xff];
         let mut ks: Vec<Vec<u8>> = vec![vec![]];
         for a in alpha { ks.push(vec![a]); for b in alpha { ks.push(vec![a, b]); } }
